@@ -27,11 +27,22 @@ mod verif_search {
     /// `ranges`: additionally compare `contains_any(a, b)` for every range around the window with the model
     /// (exists t in [a, b]: received_all(t)); `contains_any` is out of reach of both verifiers.
     fn run_with(start: u32, ops: &[(usize, usize)], ranges: bool) -> Option<String> {
+        let mut start = start;
         let mut real = ServerMutateTicks::default();
         real.last_tick = RepliconTick::new(start);
         let mut last: i64 = 0; // model ticks as offsets from `start`
         let mut seen: BTreeMap<i64, (usize, usize)> = BTreeMap::new(); // tick -> (count, received)
         for (step, &(o, count)) in ops.iter().enumerate() {
+            if o >= OFFS.len() {
+                // `clear()` (client reset): nothing received any more, last tick back to the default tick
+                real.clear();
+                seen.clear();
+                start = 0;
+                last = 0;
+                if real.last_tick() != RepliconTick::new(0) { return Some(format!("step {step}: clear() left last_tick = {:?}", real.last_tick())); }
+                if real.mask() != 0 { return Some(format!("step {step}: clear() left mask {:#x}", real.mask())); }
+                continue;
+            }
             let t = last + OFFS[o];
             let tick = RepliconTick::new(start.wrapping_add(t as u32));
             let in_window = t > last - 64;
@@ -91,7 +102,7 @@ mod verif_search {
             return;
         }
         let depth: usize = std::env::var("VERIF_DEPTH").ok().and_then(|d| d.parse().ok()).unwrap_or(3);
-        let n = OFFS.len() * 2;
+        let n = (OFFS.len() + 1) * 2; // the extra index is `clear()`
         for len in 0..=depth {
             let mut idx = std::vec![0usize; len];
             loop {
@@ -123,7 +134,7 @@ mod verif_search {
             return;
         }
         let depth: usize = std::env::var("VERIF_DEPTH").ok().and_then(|d| d.parse().ok()).unwrap_or(2);
-        let n = OFFS.len() * 2;
+        let n = (OFFS.len() + 1) * 2; // the extra index is `clear()`
         let mut explored = 0usize;
         for len in 0..=depth {
             let mut idx = std::vec![0usize; len];
@@ -132,6 +143,23 @@ mod verif_search {
                 for start in starts {
                     explored += 1;
                     if let Some(why) = guarded(|| run_with(start, &seq, true)) {
+                        println!("VERIF-COUNTEREXAMPLE policy={start} ops={} :: {why}", show(&seq));
+                        panic!("contract violated on the real code: {why}");
+                    }
+                }
+                let mut k = 0;
+                while k < len { idx[k] += 1; if idx[k] < n { break; } idx[k] = 0; k += 1; }
+                if k == len { break; }
+            }
+        }
+        // second pass, one step deeper, without the (expensive) range queries: confirm / contains / mask / clear only
+        for len in (depth + 1)..=(depth + 1) {
+            let mut idx = std::vec![0usize; len];
+            loop {
+                let seq: Vec<(usize, usize)> = idx.iter().map(|&k| (k / 2, 1 + k % 2)).collect();
+                for start in starts {
+                    explored += 1;
+                    if let Some(why) = guarded(|| run_with(start, &seq, false)) {
                         println!("VERIF-COUNTEREXAMPLE policy={start} ops={} :: {why}", show(&seq));
                         panic!("contract violated on the real code: {why}");
                     }
